@@ -14,7 +14,7 @@ if [ "${BASELINE:-0}" = 1 ]; then
   (cd "$W/repo" && PYTHONPATH="$W/repo/src" /venv/bin/python -m pytest -q -p no:cacheprovider --timeout=900 2>&1 | tail -1)
 fi
 for id in "$@"; do
-  out=$(VERIF_REPO_SRC="$W/repo/src" VERIF_EVIDENCE_DIR="$W/evidence" VERIF_RUN_DIR="$W/run" "$V/vcheck" "$id" --tier "${TIER:-quick}" 2>&1)
+  out=$(VERIF_NO_SHRINK="${KEEP:+}${KEEP:-1}" VERIF_REPO_SRC="$W/repo/src" VERIF_EVIDENCE_DIR="$W/evidence" VERIF_RUN_DIR="$W/run" "$V/vcheck" "$id" --tier "${TIER:-quick}" 2>&1)
   code=$?
   clause=$(echo "$out" | grep -m1 -o 'clause=[^ ]*')
   echo "$(basename "$PATCH") $id exit=$code $clause $(echo "$out" | grep -c '^VIOLATION') violation line(s); $(echo "$out" | tail -1)"
